@@ -60,3 +60,15 @@ def tester_povms(mode="qubit"):
     c = csys(mode, 1)
     names = QUBIT_TESTER_POVMS if mode == "qubit" else QUTRIT_TESTER_POVMS
     return [gen("povm", n, c) for n in names]
+
+
+@functools.lru_cache(maxsize=None)
+def povm3_qubit():
+    """{1/2 |0><0|, 1/2 |+><+|, rest}: three outcomes, rank 1 / 1 / 2, non-commuting."""
+    import numpy as np
+    from quara.objects.povm import Povm
+    from harness import spectral
+    e1 = 0.5 * np.array([[1, 0], [0, 0]], dtype=complex)
+    e2 = 0.25 * np.array([[1, 1], [1, 1]], dtype=complex)
+    e3 = np.eye(2) - e1 - e2
+    return Povm(csys("qubit", 1), [spectral.vec_of("q", e) for e in (e1, e2, e3)])
